@@ -408,7 +408,8 @@ func genDefaultTree(propName string) (spec.Schema, bool) {
 		return 1.0
 	}
 	root := spec.Schema{}
-	switch verifChoose(6) {
+	kind := verifChoose(6)
+	switch kind {
 	case 0:
 		root = numSchemaMax(2, pick())
 	case 1:
@@ -425,6 +426,10 @@ func genDefaultTree(propName string) (spec.Schema, bool) {
 		inner := spec.Schema{}
 		inner.Properties = map[string]spec.Schema{propName: numSchemaMax(2, pick())}
 		root.Properties = map[string]spec.Schema{"o": inner}
+	}
+	if kind > 0 && verifBool() {
+		// the container also declares the type its keywords apply to (for allOf: the scalar type of its member)
+		root.Type = spec.StringOrArray{[]string{"", "object", "array", "object", "number", "object"}[kind]}
 	}
 	return root, bad
 }
@@ -769,5 +774,73 @@ func HarnessC03Ancestry() {
 	verifPermMaps(false)
 	verifObserve("valid", got.valid)
 	verifAssert(got.valid == ok, "no-duplicate-inherited-properties-and-no-circular-ancestry")
+	verifReach("end")
+}
+
+// HarnessC07Malformed: wrongly typed and incomplete simple parameters, headers and items (arrays
+// without items, with or without a format; nested arrays; a type that is not one; a format alone;
+// enum / default of the wrong type; nil Items) pushed through every per-operation rule and both
+// traversals, in both continue-on-errors modes. Only normal return is asserted: which of the rules
+// reports the malformation (or the meta-schema pass, which is not encoded) is C03's subject.
+func genMalformedSimple() (typ, format string, items *spec.Items) {
+	typ = []string{"array", "string", "", "object", "file"}[verifChoose(5)]
+	format = []string{"", "csv", "int32"}[verifChoose(3)]
+	switch verifChoose(4) {
+	case 1:
+		items = &spec.Items{}
+	case 2:
+		items = &spec.Items{}
+		items.Type = "array"
+		items.Format = []string{"", "csv"}[verifChoose(2)]
+	case 3:
+		items = &spec.Items{}
+		items.Type = "array"
+		items.Items = &spec.Items{}
+		items.Items.Type = "array"
+		items.Items.Format = "pipes"
+	}
+	return
+}
+
+func HarnessC07Malformed() {
+	op := &spec.Operation{}
+	op.ID = "op"
+	p := spec.Parameter{}
+	p.Name = "q"
+	p.In, p.Type = "query", "string"
+	if verifBool() { // the malformation sits in the parameter
+		locs := []string{"query", "path", "", "header", "formData"}
+		p.In = locs[verifChoose(3+2*verifTier())]
+		p.Type, p.Format, p.Items = genMalformedSimple()
+		switch verifChoose(3) {
+		case 1:
+			p.Default = []interface{}{"a"}
+			p.Enum = []interface{}{1.0, nil}
+		case 2:
+			p.Default = "x"
+			p.Example = 1.0
+		}
+	} else { // ... or in a response header
+		h := spec.Header{}
+		h.Type, h.Format, h.Items = genMalformedSimple()
+		if verifBool() {
+			h.Default = []interface{}{nil, "a"}
+		}
+		resp := spec.Response{}
+		resp.Headers = map[string]spec.Header{"X": h}
+		op.Responses = &spec.Responses{}
+		op.Responses.StatusCodeResponses = map[int]spec.Response{200: resp}
+	}
+	op.Parameters = []spec.Parameter{p}
+	ops := map[string]map[string]*spec.Operation{"GET": {"/p/{q}": op}}
+	cont := verifBool()
+	s := newSpecHarnessValidator(&spec.Swagger{}, ops, cont, true)
+	verifAssert(s.validateItems() != nil, "items-rule-returns")
+	verifAssert(s.validateParameters() != nil, "parameters-rule-returns")
+	verifAssert(s.validateNonEmptyPathParamNames() != nil, "path-names-rule-returns")
+	d := &defaultValidator{SpecValidator: s, schemaOptions: s.schemaOptions}
+	_ = d.Validate()
+	ex := &exampleValidator{SpecValidator: s, schemaOptions: s.schemaOptions}
+	_ = ex.Validate()
 	verifReach("end")
 }
